@@ -1,0 +1,9 @@
+//go:build !verif
+
+package compose
+
+// Empty twins of the C03 verification hooks (see verif_c03_on.go); they inline to nothing.
+
+func verifTrace(_ *taskManager, _ string, _ *task) {}
+
+func verifYield(_ string, _ *task) {}
